@@ -8,7 +8,9 @@ class H:
     """One Kani harness. kind: proof (complete), bounded (stated bound), canary (must be refuted)."""
 
     def __init__(self, name, unit, kind="proof", tiers=("quick", "thorough"), shape=None, bound=None,
-                 known=None):
+                 known=None, alt=None):
+        # alt: name of an alternative group -- the obligation the group stands for is violated only if EVERY member fails
+        self.alt = alt
         self.name = name
         self.unit = unit
         self.kind = kind
@@ -813,3 +815,11 @@ PROPS["C17"]["verus_units"] = list(PROPS["C17"].get("verus_units", [])) + ["colu
 PROPS["C17"]["technique"] = PROPS["C17"]["technique"] + "; Verus contracts on the real column-administration calls (metadata rewritten with the stored salt and version) and on the options recorded by DbInner::open (fragment)"
 PROPS["C17"]["claim"] = PROPS["C17"]["claim"] + " Column administration (Verus, unbounded over the column list; file operations by contract): add_column, drop_last_column and reset_column first open the database (replaying pending logs), rewrite the metadata with exactly the salt and the version the database has -- never with the requested salt or the current version -- and change the option list only at the column concerned; the handle DbInner::open returns records the stored salt."
 PROPS["C17"]["does_not_cover"] = ["metadata file round trip (as_string / from_string)", "files touched by DbInner::open before validation (directory, lock file)", "which files Column::drop_files deletes (file-name prefixes on str)", "migration::clear_column", "content of the other columns' files"]
+
+# ---------------------------------------------------------------- U51 (alternative group: who makes sure the log bytes are in the file at sync time)
+M_LOG.harnesses.append(H("u51_flush_one_syncs_buffered_bytes", "U51", kind="bounded", alt="wal_bytes_reach_file_before_sync", shape="Log::flush_one on a log whose writer still buffers five bytes of a record", bound="one log file, five buffered bytes; File::write / sync_data / close by contract"))
+M_LOG.harnesses.append(H("u51_flush_to_file_leaves_nothing_buffered", "U51", kind="bounded", alt="wal_bytes_reach_file_before_sync", shape="LogChange::flush_to_file of an empty record through a 64-byte BufWriter", bound="empty record (14 bytes); File::write by contract"))
+UNIT_META["U51"] = {"functions": ["log::Log::flush_one", "log::LogChange::flush_to_file"], "assumes": ["<File as Write>::write, File::sync_data and close(2) replaced by contracts (byte counters)", "alternative group: a synced log file misses record bytes only if flush_to_file leaves bytes buffered AND flush_one syncs before unwrapping the writer; either one alone keeps the property, so a violation is reported only when both harnesses fail"]}
+PROPS["C12"]["kani_units"] = list(PROPS["C12"]["kani_units"]) + ["U51"]
+PROPS["C03"]["kani_units"] = list(PROPS["C03"]["kani_units"]) + ["U51"]
+PROPS["C12"]["claim"] = PROPS["C12"]["claim"] + " Every byte of a record has reached the log file when the file is synced (Kani, bounded; std BufWriter is the real code): flush_to_file leaves nothing buffered after a record, or else flush_one unwraps (flushes) the writer before fdatasync -- reported as violated only if neither holds."
